@@ -78,7 +78,7 @@ MODULES = [
     Mod(5, "C021", A5 + "xC021_zone_status", "ZoneStatusEncoder", "ZoneStatusDecoder", "cs", 8),
     Mod(5, "C022", A5 + "xC022_ac_ctrl", "AcControlEncoder", "AcControlDecoder", "cs", 4),
     Mod(5, "C023", A5 + "xC023_ac_status", "AcStatusEncoder", "AcStatusDecoder", "cs", 10),
-    Mod(5, "C032", A5 + "xC032_ac_timer_ctrl", "AcTimerControlEncoder", "AcTimerControlDecoder", "cs", 5),
+    Mod(5, "C032", A5 + "xC032_ac_timer_ctrl", "AcTimerControlEncoder", "AcTimerControlDecoder", "cs", 9),
     Mod(5, "C033", A5 + "xC033_ac_timer_status", "AcTimerStatusEncoder", "AcTimerStatusDecoder", "cs", 9),
     Mod(5, "FF10", A5 + "x1FFF10_err_info", "AcErrorInformationEncoder", "AcErrorInformationDecoder", "ext", 0),
     Mod(5, "FF11", A5 + "x1FFF11_ac_ability", "AcAbilityEncoder", "AcAbilityDecoder", "ext", 0),
